@@ -11,10 +11,20 @@ This module contains classes and functions to remove component tensors.
 from collections import defaultdict
 
 from ufl.algorithms.map_integrands import map_integrand_dags
-from ufl.classes import ComponentTensor, Index, MultiIndex, Zero
+from ufl.classes import ComponentTensor, Index, IndexSum, MultiIndex, Zero
 from ufl.corealg.map_dag import map_expr_dag
 from ufl.corealg.multifunction import MultiFunction
+from ufl.corealg.traversal import unique_pre_traversal
 from ufl.index_combination_utils import unique_sorted_indices
+
+
+def _bound_index_counts(e):
+    """Return the counts of the indices bound by an IndexSum or ComponentTensor inside e."""
+    bound = set()
+    for o in unique_pre_traversal(e):
+        if isinstance(o, IndexSum | ComponentTensor):
+            bound.update(i.count() for i in o.ufl_operands[1] if isinstance(i, Index))
+    return bound
 
 
 class IndexReplacer(MultiFunction):
@@ -82,6 +92,13 @@ class IndexRemover(MultiFunction):
         if isinstance(o1, ComponentTensor):
             # Simplify Indexed ComponentTensor
             o2, i2 = o1.ufl_operands
+            # Substituting i1 for i2 throughout o2 is only valid if o2 binds
+            # none of these indices again (shadowing) or anew (capture)
+            touched = {i.count() for i in (*i1, *i2) if isinstance(i, Index)}
+            if touched & _bound_index_counts(o2):
+                if o.ufl_operands[0] is o1:
+                    return o
+                return o._ufl_expr_reconstruct_(o1, i1)
             # Replace outer indices
             rkey = (i2, i1)
             rule = self.rules.get(rkey)
